@@ -5,17 +5,21 @@ import YaegiVerif.Expected.C10
 import YaegiVerif.Generated.C10
 /-
   C10 — a cancelled evaluation does not damage earlier definitions. Theorems over histories
-  `define* ; (use | cancelled-eval)*` on the run-id model (Model/RunId.lean, section C10): the state is the
+  `(define | use | cancelled-eval)*` on the run-id model (Model/RunId.lean, section C10): the state is the
   interpreter id, the id of the root frame and the definitions made so far, each with the way its body gets a
   frame (`Binding`) and a call counter (so that a use that silently does nothing is visible in later results).
   `runHist F` is the interpreter as it is (facts `F`), `runSpec` what Go and the property demand.
+
+  State after the repairs of round 2 (4a41b28 F10, 2667a11 import): the full-strength statement holds for the
+  extracted facts — every history, every kind of definition, every way of calling. What it was false for is kept
+  as statements about `Expected.C10.oldFacts`, the record the extractor produces on the tree before the repairs.
 -/
 namespace YaegiVerif.Props.C10
 open YaegiVerif YaegiVerif.RunId YaegiVerif.Proofs.C09 YaegiVerif.Proofs.C10
 
 /-! ### ties to the source -/
 
-/-- tie: the run-id facts extracted from interp/{interp,program,run}.go are the ones the proofs use -/
+/-- tie: the run-id facts extracted from interp/{interp,program,run,src}.go are the ones the proofs use -/
 theorem runidfacts_tie : Generated.C10.facts = Expected.C10.facts := by decide
 theorem execruns_tie : Generated.C10.execRuns = Expected.C10.execRuns := by decide
 theorem notes_tie : Generated.C10.notes = [] := by decide
@@ -30,103 +34,198 @@ theorem expected_sound : Sound Expected.C10.facts := by
     exactly when `guardOk` says so — which is how `alive` is defined; otherwise the frame is dropped without
     executing anything -/
 theorem body_runs_iff_guard (F : RunIdFacts) (σ : St) (fid : Nat) (p : Prog) (rest : List Frame) (main : Bool) (ops ticks : Nat) :
-    let g : G := { stack := ⟨fid, .tick p, true⟩ :: rest, armed := false, blocked := none, ops := ops, ticks := ticks, main := main }
-    (stepG F σ g).1.armed = guardOk F fid σ.id ∧
-    (guardOk F fid σ.id = false → (stepG F σ g).1.stack = rest ∧ (stepG F σ g).1.ops = ops ∧ (stepG F σ g).1.ticks = ticks) := by
+    let g : G := { stack := ⟨fid, .tick p, true⟩ :: rest, armed := false, blocked := none, ops := ops, ticks := ticks, main := main, pending := none }
+    (stepG F σ g).g.armed = guardOk F fid σ.id ∧
+    (guardOk F fid σ.id = false → (stepG F σ g).g.stack = rest ∧ (stepG F σ g).g.ops = ops ∧ (stepG F σ g).g.ticks = ticks) := by
   cases h : guardOk F fid σ.id <;> simp [stepG, advance, h]
 
-/-! ### named functions and methods survive, for all histories -/
+/-- the id the frame of a call of a function value gets in the history model is the id the machine gives it: the
+    root frame's, read when the call is made -/
+theorem function_value_called_under_root_id (h : HSt) (d : Def) (s : Site) (c : Nat) (hs : s ≠ .call)
+    (hb : d.binding = .fixed s c ∨ d.binding = .root) : useFrameId Generated.C10.facts h d = h.rootId := by
+  rw [runidfacts_tie]
+  rcases hb with hb | hb
+  · cases s <;> first | exact absurd rfl hs | simp [useFrameId, hb, newId, RunIdFacts.site, Expected.C10.facts, Expected.C09.facts]
+  · simp [useFrameId, hb, newId, Expected.C10.facts, Expected.C09.facts]
 
-/-- **A named function (or a method) survives**: after ANY history — any definitions, any uses, any number of
-    cancelled evaluations of any kind — an `Eval` of a call to it runs its body (the frame it gets carries the
-    interpreter's current id) and returns the value Go returns. -/
-theorem named_function_survives (evs : List Ev) (i x : Nat) (d : Def)
-    (hd : (runHist Generated.C10.facts HSt.init evs).defs[i]? = some d)
-    (hk : d.kind = .named ∨ d.kind = .method) :
-    alive Generated.C10.facts ((runHist Generated.C10.facts HSt.init evs).refresh Generated.C10.facts) d = true ∧
-    (runHist Generated.C10.facts HSt.init (evs ++ [.use i .eval x])).results =
-      value d x :: (runHist Generated.C10.facts HSt.init evs).results := by
-  have hb : d.binding = .callee :=
-    namedLate_run _ evs HSt.init (fun d hd => by cases hd) d (List.mem_of_getElem? hd) hk
+/-! ### the invariant of histories -/
+
+/-- **Between two events the root frame carries the interpreter's id**, whatever the history was: `Execute`
+    refreshes it when it starts and again when it returns, a cancelled `Execute` included. -/
+theorem root_in_step_between_events (evs : List Ev) :
+    (runHist Generated.C10.facts HSt.init evs).rootId = (runHist Generated.C10.facts HSt.init evs).id := by
+  rw [runidfacts_tie]
+  exact synced_run evs HSt.init rfl
+
+/-- **Every definition is alive after every history**: a use — an `Eval` of a call or a direct call by the host —
+    of ANY definition made so far (named function, method, closure, method value bound at top level or inside a
+    function, function value held by the host, function of a package imported later) gets a frame that carries
+    the interpreter's current id. -/
+theorem every_definition_alive (evs : List Ev) (d : Def) (hd : d ∈ (runHist Generated.C10.facts HSt.init evs).defs) :
+    alive Generated.C10.facts (runHist Generated.C10.facts HSt.init evs) d = true ∧
+    alive Generated.C10.facts ((runHist Generated.C10.facts HSt.init evs).refresh Generated.C10.facts) d = true := by
   revert hd
   rw [runidfacts_tie]
   intro hd
-  have ha : alive Expected.C10.facts ((runHist Expected.C10.facts HSt.init evs).refresh Expected.C10.facts) d = true := by
-    simp [alive, useFrameId, hb, HSt.refresh, guardOk, newId, Expected.C10.facts, Expected.C09.facts]
-  refine ⟨ha, ?_⟩
-  have happ : runHist Expected.C10.facts HSt.init (evs ++ [.use i .eval x]) =
-      stepH Expected.C10.facts (runHist Expected.C10.facts HSt.init evs) (.use i .eval x) := by
-    simp [runHist, List.foldl_append]
-  rw [happ]
-  exact use_eval_alive _ _ i x d hd ha
+  have hs := synced_run evs HSt.init rfl
+  have hf := fvBound_run Expected.C10.facts evs HSt.init (fun d hd => by cases hd)
+  refine ⟨synced_alive _ d hs (hf d hd), ?_⟩
+  rw [refresh_synced _ hs]
+  exact synced_alive _ d hs (hf d hd)
 
-/-! ### the partial theorem: histories over late-bound definitions used through `Eval` -/
-
-/-- **Definitions survive** (partial: `Dom`). For every history whose definitions are named functions, methods
-    and top-level method values, used through `Eval`, with cancelled evaluations of any kind anywhere: every use
-    returns exactly what it returns when the cancelled evaluations are left out (`runSpec` ignores them), state
-    carried between calls included. -/
-theorem definitions_survive_partial (evs : List Ev) (hd : Dom evs = true) :
-    (runHist Generated.C10.facts HSt.init evs).results = (runSpec HSt.init evs).results := by
-  rw [runidfacts_tie]
-  have := dom_run evs HSt.init hd (fun d hd => by cases hd)
-  have h2 : (erase (runHist Expected.C10.facts HSt.init evs)).results = (runSpec (erase HSt.init) evs).results := by rw [this]
-  simpa [erase, HSt.init] using h2
-
-/-- non-vacuity: a history in `Dom` with three cancelled evaluations of different kinds between stateful uses -/
-def exHist : List Ev :=
-  [.define .named 3 1, .define .method 2 5, .define .methodValueTop 7 1, .use 0 .eval 4, .cancelled .busyLoop, .use 0 .eval 4,
-   .use 2 .eval 1, .cancelled .expiredBefore, .use 1 .eval 3, .cancelled .blockedChan, .use 2 .eval 1, .use 0 .eval 0]
-example : Dom exHist = true ∧ (runHist Generated.C10.facts HSt.init exHist).results = [4, 10, 12, 9, 15, 14] ∧
-    (runHist Generated.C10.facts HSt.init exHist).id = 3 := by decide
-
-/-! ### what `Dom` excludes (F10) -/
+/-! ### the property, at full strength -/
 
 /-- the full-strength statement: every history, every definition kind, every way of calling -/
 def C10_full_statement (F : RunIdFacts) : Prop :=
   ∀ evs : List Ev, (runHist F HSt.init evs).results = (runSpec HSt.init evs).results
 
-/-- F10, closures: a closure stored in a variable works before the cancelled evaluation and returns the zero
-    value afterwards, again and again (its call counter does not move either); Go returns 23, 24, 25 -/
-theorem closure_dead_after_cancel_witness :
+/-- **Definitions survive** (full strength). For EVERY history — definitions of every kind (named functions,
+    methods, closures stored in variables, method values bound at top level or inside functions, function values
+    handed to the host, functions of packages imported after cancellations), uses through `Eval` and direct calls
+    by the host, cancelled evaluations of every kind anywhere and in any number —: every use returns exactly what
+    it returns when the cancelled evaluations are left out (`runSpec` ignores them), state carried between calls
+    included. -/
+theorem definitions_survive : C10_full_statement Generated.C10.facts := by
+  intro evs
+  rw [runidfacts_tie]
+  have := full_run evs HSt.init rfl (fun d hd => by cases hd)
+  have h2 : (erase (runHist Expected.C10.facts HSt.init evs)).results = (runSpec (erase HSt.init) evs).results := by rw [this]
+  simpa [erase, HSt.init] using h2
+
+/-- a named function (or a method) after any history, in the form the partial theorem of round 1 had (corollary) -/
+theorem named_function_survives (evs : List Ev) (i x : Nat) (d : Def)
+    (hd : (runHist Generated.C10.facts HSt.init evs).defs[i]? = some d) :
+    (runHist Generated.C10.facts HSt.init (evs ++ [.use i .eval x])).results =
+      value d x :: (runHist Generated.C10.facts HSt.init evs).results := by
+  have ha := (every_definition_alive evs d (List.mem_of_getElem? hd)).2
+  have happ : runHist Generated.C10.facts HSt.init (evs ++ [.use i .eval x]) =
+      stepH Generated.C10.facts (runHist Generated.C10.facts HSt.init evs) (.use i .eval x) := by
+    simp [runHist, List.foldl_append]
+  rw [happ, stepH_use_eval]
+  have hd' : ((runHist Generated.C10.facts HSt.init evs).refresh Generated.C10.facts).defs[i]? = some d := by
+    simpa [HSt.refresh] using hd
+  show (useBody Generated.C10.facts ((runHist Generated.C10.facts HSt.init evs).refresh Generated.C10.facts) i x).results = _
+  unfold useBody
+  rw [hd']
+  simp only [ha, if_true]
+  rfl
+
+/-- non-vacuity: a history with every kind of definition, used through `Eval` and by the host, with four cancelled
+    evaluations of every kind in between, and a package imported after two of them -/
+def exHist : List Ev :=
+  [.define .named 3 1, .define .closure 5 2, .define .hostWrapper 2 5, .define .methodValueInFunc 7 1,
+   .use 1 .eval 4, .use 2 .host 1, .cancelled .busyLoop, .use 1 .eval 4, .use 1 .host 4, .use 2 .host 1, .use 3 .eval 1,
+   .cancelled .expiredBefore, .define .imported 2 9, .use 4 .eval 3, .cancelled .blockedChan, .cancelled .expiredAfter,
+   .use 0 .eval 0, .use 3 .eval 1, .use 1 .host 0, .use 4 .eval 1]
+example : (runHist Generated.C10.facts HSt.init exHist).results = (runSpec HSt.init exHist).results ∧
+    (runHist Generated.C10.facts HSt.init exHist).results = [13, 6, 10, 2, 16, 9, 9, 25, 24, 8, 23] ∧
+    (runHist Generated.C10.facts HSt.init exHist).id = 4 := by decide
+
+/-- F10 repaired (4a41b28), the replay of the finding: a closure and a function value held by the host, used before
+    and after a cancelled evaluation, from the script and from the host -/
+def f10Hist : List Ev :=
+  [.define .closure 5 2, .define .hostWrapper 3 1, .use 0 .eval 4, .use 1 .host 4, .cancelled .busyLoop,
+   .use 1 .host 4, .use 0 .eval 4, .use 1 .host 4]
+theorem closure_and_wrapper_survive_cancel :
+    (runHist Generated.C10.facts HSt.init f10Hist).results = [16, 24, 15, 14, 23] ∧
+    (runSpec HSt.init f10Hist).results = [16, 24, 15, 14, 23] := by decide
+
+/-! ### what remains: the window between the return of the `…WithContext` call and the return of its `Execute` -/
+
+/-- An event of a history is a complete evaluation. Between the moment the watcher has run `stop()` (the
+    `…WithContext` call returns the context's error) and the moment the cancelled `Execute` itself returns (its own
+    goroutine: the deferred refresh), the root frame is stale: a direct call by the host made in that window gets a
+    stale frame for EVERY definition, runs nothing and returns zero values. Outside the quantifier of
+    `definitions_survive`; the assumption is listed in props/C10.json and the window is finding F10-1. -/
+theorem host_call_in_window_fails (evs : List Ev) (d : Def)
+    (hd : d ∈ (runHist Generated.C10.facts HSt.init evs).defs) :
+    alive Generated.C10.facts ((runHist Generated.C10.facts HSt.init evs).stoppedNotLeft Generated.C10.facts) d = false := by
+  revert hd
+  rw [runidfacts_tie]
+  intro hd
+  have hs := synced_run evs HSt.init rfl
+  have hf := fvBound_run Expected.C10.facts evs HSt.init (fun d hd => by cases hd)
+  unfold Synced at hs
+  cases hb : d.binding with
+  | callee => simp [alive, useFrameId, hb, guardOk, newId, HSt.stoppedNotLeft, HSt.refresh, Expected.C10.facts, Expected.C09.facts]
+  | root => simp [alive, useFrameId, hb, guardOk, newId, HSt.stoppedNotLeft, HSt.refresh, Expected.C10.facts, Expected.C09.facts]
+  | fixed s c =>
+    cases s with
+    | call => exact absurd hb (hf d hd c)
+    | _ => simp [alive, useFrameId, hb, guardOk, newId, RunIdFacts.site, HSt.stoppedNotLeft, HSt.refresh, Expected.C10.facts, Expected.C09.facts]
+
+/-- histories without a held evaluation are the histories of `definitions_survive` -/
+theorem runX_of_events (F : RunIdFacts) (evs : List Ev) : runX F (evs.map .ev) = runHist F HSt.init evs := by
+  have key : ∀ (h : HSt), (evs.map XEv.ev).foldl (stepX F) (h, false) = (evs.foldl (stepH F) h, false) := by
+    induction evs with
+    | nil => intro h; rfl
+    | cons e es ih => intro h; simp only [List.map_cons, List.foldl_cons, stepX, settle]; exact ih _
+  simp [runX, key, settle, runHist]
+
+/-- F10-1 (open): a function value handed to the host is called while the cancelled `Execute` has not returned yet:
+    it returns the zero value (and its state does not move); once that `Execute` has returned the same call works.
+    Go returns 14, 15, 16. -/
+theorem host_call_before_execute_returned_witness :
+    let evs := [XEv.ev (.define .hostWrapper 3 1), .ev (.use 0 .host 4), .hold, .ev (.use 0 .host 4), .ev (.use 0 .host 4)]
+    (runX Generated.C10.facts evs).results = [15, 0, 14] ∧
+    (runSpec HSt.init (XEv.plain evs)).results = [16, 15, 14] := by
+  decide
+
+/-! ### before the repairs (statements about the old facts) -/
+
+/-- F10, closures: with the facts of the tree before 4a41b28 a closure stored in a variable works before the
+    cancelled evaluation and returns the zero value afterwards, again and again (its call counter does not move
+    either); Go returns 23, 24, 25 -/
+theorem closure_dead_after_cancel_witness_old :
     let evs := [Ev.define .closure 5 2, .use 0 .eval 4, .cancelled .busyLoop, .use 0 .eval 4, .define .named 1 1,
                 .use 1 .eval 1, .use 0 .eval 4, .use 0 .host 4]
-    (runHist Generated.C10.facts HSt.init evs).results = [0, 0, 3, 0, 23] ∧
-    (runSpec HSt.init evs).results = [26, 25, 3, 24, 23] := by
+    (runHist Expected.C10.oldFacts HSt.init evs).results = [0, 0, 3, 0, 23] ∧
+    (runSpec HSt.init evs).results = [26, 25, 3, 24, 23] ∧
+    (runHist Generated.C10.facts HSt.init evs).results = [26, 25, 3, 24, 23] := by
   decide
 
-/-- F10, exported wrappers: a function value handed to the host returns the zero value when called directly
-    after the cancelled evaluation, and works again once any later evaluation has been executed -/
-theorem wrapper_dead_until_next_execute_witness :
+/-- F10, exported wrappers, old facts: a function value handed to the host returns the zero value when called
+    directly after the cancelled evaluation, and works again once any later evaluation has been executed -/
+theorem wrapper_dead_until_next_execute_witness_old :
     let evs := [Ev.define .hostWrapper 3 1, .define .named 1 1, .use 0 .host 4, .cancelled .blockedChan, .use 0 .host 4,
                 .use 0 .host 4, .use 1 .eval 1, .use 0 .host 4]
-    (runHist Generated.C10.facts HSt.init evs).results = [15, 3, 0, 0, 14] ∧
-    (runSpec HSt.init evs).results = [17, 3, 16, 15, 14] := by
+    (runHist Expected.C10.oldFacts HSt.init evs).results = [15, 3, 0, 0, 14] ∧
+    (runSpec HSt.init evs).results = [17, 3, 16, 15, 14] ∧
+    (runHist Generated.C10.facts HSt.init evs).results = [17, 3, 16, 15, 14] := by
   decide
 
-theorem full_statement_false : ¬ C10_full_statement Generated.C10.facts := by
+/-- 2667a11, old facts: the variables of a package imported right after a cancelled evaluation are not initialised
+    (its function computes `x*a + 0 + calls` instead of `x*a + b + calls`) -/
+theorem import_after_cancel_witness_old :
+    let evs := [Ev.define .named 1 1, .cancelled .busyLoop, .define .imported 2 9, .use 1 .eval 3, .use 0 .eval 1]
+    (runHist Expected.C10.oldFacts HSt.init evs).results = [3, 7] ∧
+    (runSpec HSt.init evs).results = [3, 16] ∧
+    (runHist Generated.C10.facts HSt.init evs).results = [3, 16] := by
+  decide
+
+/-- the full-strength statement was false for the interpreter before the repairs -/
+theorem full_statement_false_old : ¬ C10_full_statement Expected.C10.oldFacts := by
   intro h
   have := h [Ev.define .closure 5 2, .cancelled .busyLoop, .use 0 .eval 4]
   revert this
   decide
 
-theorem fixed_binding_dead_for_ever (evs : List Ev) (h : HSt) (s : Site) (c : Nat) (d : Def)
+/-- old facts: a frame id captured before a cancellation never became current again — a closure (or a method value
+    made inside a function) whose captured id was behind the interpreter's id was dead for ever: the ids only grow -/
+theorem fixed_binding_dead_for_ever_old (evs : List Ev) (h : HSt) (s : Site) (c : Nat) (d : Def)
     (hb : d.binding = .fixed s c) (hc : c < h.id) :
-    alive Generated.C10.facts (runHist Generated.C10.facts h evs) d = false ∧
-    alive Generated.C10.facts ((runHist Generated.C10.facts h evs).refresh Generated.C10.facts) d = false := by
-  have hmono : h.id ≤ (runHist Generated.C10.facts h evs).id := by
+    alive Expected.C10.oldFacts (runHist Expected.C10.oldFacts h evs) d = false ∧
+    alive Expected.C10.oldFacts ((runHist Expected.C10.oldFacts h evs).refresh Expected.C10.oldFacts) d = false := by
+  have hmono : h.id ≤ (runHist Expected.C10.oldFacts h evs).id := by
     induction evs generalizing h with
     | nil => exact Nat.le_refl _
     | cons e es ih =>
-      have h1 := id_monotone Generated.C10.facts h e
-      have h2 := ih (stepH Generated.C10.facts h e) (by omega)
+      have h1 := id_monotone Expected.C10.oldFacts h e
+      have h2 := ih (stepH Expected.C10.oldFacts h e) (by omega)
       simp only [runHist, List.foldl_cons] at h2 ⊢
       omega
-  revert hmono
-  rw [runidfacts_tie]
-  intro hmono
-  have hs : Expected.C10.facts.site s = .parent := by cases s <;> rfl
-  have hg : Expected.C10.facts.guardPlain = true := rfl
+  have hs : Expected.C10.oldFacts.site s = .parent := by cases s <;> rfl
+  have hg : Expected.C10.oldFacts.guardPlain = true := rfl
   constructor <;> simp [alive, useFrameId, hb, hs, newId, guardOk, hg, HSt.refresh] <;> omega
 
 end YaegiVerif.Props.C10
